@@ -53,10 +53,11 @@ theorem map_modify_comm {β γ : Type} (l : List β) (i : Nat) (f : β → β) (
 
 /-- the field branch of `collectFields` on views -/
 theorem cview_field_step (s : Schema) (acc : List CF) (alias name objDef : String) (ss : List Sel)
+    (fd : List String)
     (h : ∀ e ∈ cview acc, matchKey s e.1 (name, alias, objDef) = (κa e.1 == κa (name, alias, objDef))) :
     cview (match findSlot s acc name alias objDef with
       | some i => acc.modify i fun f => { f with sels := f.sels ++ ss }
-      | none => acc ++ [{ alias, name, objDef, sels := ss }]) =
+      | none => acc ++ [{ alias, name, objDef, sels := ss, fdirs := fd }]) =
     add κa (cview acc) (name, alias, objDef) ss := by
   have hs := findSlot_eq_slot s acc (name, alias, objDef) h
   simp only at hs
@@ -232,7 +233,7 @@ theorem collect_view (s : Schema) (frags : List Frag) (vars : Vars) (sat : List 
             rw [hr] at h
             simp only [Option.some.injEq, Prod.mk.injEq] at h
             obtain ⟨rfl, rfl⟩ := h
-            have hstep := cview_field_step s acc alias name objDef ss (by
+            have hstep := cview_field_step s acc alias name objDef ss (userDirs dirs) (by
               intro e he
               exact hag e.1 (List.mem_append_left _ (List.mem_map_of_mem (f := (·.1)) he)) _
                 (List.mem_append_right _ (by simp [keysOf, oview])))
